@@ -54,6 +54,27 @@ type ModSet struct {
 	refs      map[string][]Term // array-name prefix -> only these object refs may change
 	allocates bool
 	ghosts    map[string]bool // ghost variables that may change
+	from      map[string][]fromRef // element arrays: of these backing arrays only positions >= lo may change
+	alloc     *allocInfo           // which kinds of objects the call may allocate (nil: any)
+}
+
+// fromRef: "elemsfrom(s, k)" - of the backing array of s only the elements at positions off(s)+k and above may change
+type fromRef struct {
+	ref Term
+	lo  Term
+}
+
+func (m *ModSet) fromOf(name string) []fromRef {
+	if m == nil {
+		return nil
+	}
+	var out []fromRef
+	for p, fs := range m.from {
+		if name == p || strings.HasPrefix(name, p+".") || strings.HasPrefix(name, p+"|") {
+			out = append(out, fs...)
+		}
+	}
+	return out
 }
 
 func (m *ModSet) lookup(name string) (whole bool, refs []Term, touched bool) {
@@ -387,7 +408,7 @@ func (x *Exec) epochDefault(e *Epoch, name string, sort Sort) Term {
 		switch {
 		case whole:
 			res = x.declare(fmt.Sprintf("%s@e%d", sanitize(name), e.id), sort)
-		case !touched && !e.mods.allocates:
+		case !touched && (!e.mods.allocates || !e.mods.alloc.mayAlloc(name)):
 			res = old
 		case !strings.HasPrefix(string(sort), "(Array Int "):
 			// a global variable etc: not indexed by object
@@ -404,6 +425,11 @@ func (x *Exec) epochDefault(e *Epoch, name string, sort Sort) Term {
 			}
 			body := Implies(And(conds...), Eq(Select(res, Term{"r", SInt}), Select(old, Term{"r", SInt})))
 			x.assume(Term{fmt.Sprintf("(forall ((r Int)) (! %s :pattern ((select %s r))))", body.S, res.S), SBool})
+			for _, f := range e.mods.fromOf(name) {
+				row, orow := Select(res, f.ref), Select(old, f.ref)
+				b := Implies(Lt(Term{"i", SInt}, f.lo), Eq(Select(row, Term{"i", SInt}), Select(orow, Term{"i", SInt})))
+				x.assume(Term{fmt.Sprintf("(forall ((i Int)) (! %s :pattern ((select %s i))))", b.S, row.S), SBool})
+			}
 		}
 	}
 	e.memo[name] = res
@@ -1331,6 +1357,32 @@ func samePlace(a, b *Place) bool {
 	return true
 }
 
+// normNested replaces place pointers and function values nested in structs and tuples by their reference terms.
+func (x *Exec) normNested(v Value) Value {
+	switch v := v.(type) {
+	case VPtr:
+		return VScalar{x.refOfPtr(v)}
+	case VFunc:
+		if len(v.Bindings) == 0 {
+			return VScalar{x.funcID(v.Fn)}
+		}
+		return VScalar{x.flatten(v)[0]}
+	case VStruct:
+		fs := make([]Value, len(v.Fields))
+		for i, f := range v.Fields {
+			fs[i] = x.normNested(f)
+		}
+		return VStruct{fs}
+	case VTuple:
+		fs := make([]Value, len(v.Elems))
+		for i, f := range v.Elems {
+			fs[i] = x.normNested(f)
+		}
+		return VTuple{fs}
+	}
+	return v
+}
+
 // mergeValues merges values arriving under mutually exclusive conditions.
 func (x *Exec) mergeValues(conds []Term, vals []Value, hint string) Value {
 	if len(vals) == 1 {
@@ -1384,6 +1436,14 @@ func (x *Exec) mergeValues(conds []Term, vals []Value, hint string) Value {
 		}
 	}
 	t0, ok := rawTerms(vals[0])
+	if !ok {
+		// pointers or function values nested in a struct: merge them as references
+		vals = append([]Value{}, vals...)
+		for i := range vals {
+			vals[i] = x.normNested(vals[i])
+		}
+		t0, ok = rawTerms(vals[0])
+	}
 	if !ok {
 		panic(unsupported(fmt.Sprintf("merge of %T", vals[0])))
 	}
@@ -1622,10 +1682,28 @@ func (x *Exec) explicitPanic(fr *Frame, st *State, pos token.Pos, what string) {
 		st.pc = False
 		return
 	}
+	if fc != nil && fc.PanicsWhen != nil {
+		x.stopCheck(fr, st, fc, pos, "explicit-panic")
+		st.pc = False
+		return
+	}
 	if !x.opts.NoPanicObls {
 		x.check(st, "explicit-panic", nil, pos, x.srcAt(pos), False)
 	}
 	st.pc = False
+}
+
+// stopCheck: in a function declared "panics when <cond>", reaching a panic or a call that does not return is an
+// obligation that <cond> holds in the state reached.
+func (x *Exec) stopCheck(fr *Frame, st *State, fc *FuncContract, pos token.Pos, kind string) {
+	env := &SpecEnv{x: x, st: st, old: fr.entrySt, vars: map[string]SVal{}, fr: fr}
+	if fr.fn.Pkg != nil {
+		env.pkg = fr.fn.Pkg.Pkg
+	} else if o := fr.fn.Origin(); o != nil && o.Pkg != nil {
+		env.pkg = o.Pkg.Pkg
+	}
+	g := x.safeEvalBool(env, fc.PanicsWhen, x.P.funcKey(fr.fn))
+	x.check(st, kind, fc.PanicsWhen.Tags, pos, x.srcAt(pos)+": allowed only when "+fc.PanicsWhen.Text, g)
 }
 
 func (x *Exec) edge(fr *Frame, from, to *ssa.BasicBlock, st *State) {
